@@ -11,6 +11,7 @@ from pexpect.popen_spawn import PopenSpawn
 
 from ..core.runner import split_range
 from ..core.watchdog import watchdog, CaseTimeout
+from ..core.acc import second_attempt
 from ..workloads.gen_expect import rng_for
 from ..workloads.puppetctl import Puppet, PeerError, proc_stat, wait_state
 
@@ -435,20 +436,25 @@ def one(case, acc, rng):
         acc.count('exit_fates')
     else:
         acc.count('signal_fates')
+    def go():
+        if case['tr'] == 'inflict':
+            inflicted_case(case, acc, rng)
+        elif case['tr'] == 'pty':
+            pty_case(case, acc, rng)
+        elif case['tr'] == 'popen':
+            popen_case(case, acc, rng)
+        else:
+            run_case(case, acc)
     try:
         with watchdog(60):
-            if case['tr'] == 'inflict':
-                inflicted_case(case, acc, rng)
-            elif case['tr'] == 'pty':
-                pty_case(case, acc, rng)
-            elif case['tr'] == 'popen':
-                popen_case(case, acc, rng)
-            else:
-                run_case(case, acc)
+            go()
     except PeerError as e:
         acc.inconc('peer: %s (%r)' % (e, case))
     except CaseTimeout as e:
-        acc.inconc('watchdog: %s (%r)' % (e, case))
+        try:
+            second_attempt(acc, case, go, 60, '%s case %s did not finish within 60 s' % (case['tr'], case['path']))
+        except PeerError as e2:
+            acc.inconc('peer: %s (%r)' % (e2, case))
     if acc.evaluations <= 3:
         acc.sample(case)
 
